@@ -67,6 +67,12 @@ if name == "hg" and k == "commit" and "--logfile" in argv:
         rec["logfile_bytes"] = open(argv[argv.index("--logfile") + 1], "rb").read().decode("utf-8", "surrogateescape")
     except Exception as ex:
         rec["logfile_error"] = repr(ex)
+if cfg.get("watch"):
+    import hashlib
+    try:
+        rec["watch"] = hashlib.sha1(open(cfg["watch"], "rb").read()).hexdigest()
+    except OSError:
+        rec["watch"] = None
 with open(os.path.join(d, "argv.log"), "a", encoding="utf-8", errors="surrogateescape") as f:
     f.write(json.dumps(rec) + "\n")
 
